@@ -7,3 +7,5 @@ mod c11;
 mod c18;
 #[cfg(kani)]
 mod c15;
+#[cfg(kani)]
+mod c04;
